@@ -53,7 +53,9 @@ pub fn stop_layers(at: &str) -> &'static [&'static str] {
     match at {
         "vlan" => &["VlanHeader"],
         "macsec" => &["MacsecHeader", "MacsecPacket"],
-        "ip" | "ipv4" | "ipv6" => &["IpHeader", "Ipv4Header", "Ipv6Header", "Ipv4Packet", "Ipv6Packet"],
+        "ip" => &["IpHeader"],
+        "ipv4" => &["IpHeader", "Ipv4Header", "Ipv4Packet"],
+        "ipv6" => &["IpHeader", "Ipv6Header", "Ipv6Packet"],
         "auth" => &["IpAuthHeader"],
         "hbh" => &["Ipv6HopByHopHeader", "Ipv6ExtHeader"],
         "dest" => &["Ipv6DestOptionsHeader", "Ipv6ExtHeader"],
@@ -117,7 +119,7 @@ fn metamorphic(c: &mut Cmp, s: &SlicedPacket, l: &LaxSlicedPacket) {
     c.eq("strict-vs-lax", "stop_err", format!("{:?}", l.stop_err), "None".to_string());
 }
 
-fn check(start: Start, b: &[u8], ctx: &mut Ctx) -> Result<(), Failure> {
+pub fn check(start: Start, b: &[u8], ctx: &mut Ctx) -> Result<(), Failure> {
     let input = || input_json(start, b);
     let entry = lax_entry_name(start);
     let r_lax = refdec::decode(start, b, true);
@@ -174,6 +176,10 @@ fn check(start: Start, b: &[u8], ctx: &mut Ctx) -> Result<(), Failure> {
     }
     // struct family: verdict, stop error and payload of LaxPacketHeaders against the lax reference
     headers_family(start, b, &r_lax, ctx)?;
+    // single-layer lax IP decoders on inputs that start with an IP header
+    if start == Start::Ip {
+        lax_ip_front_ends(b, &r_lax, ctx)?;
+    }
     let strict_fails_late = {
         let rs = refdec::decode(start, b, false);
         !rs.ok() && !rs.layers.is_empty()
@@ -188,6 +194,92 @@ fn check(start: Start, b: &[u8], ctx: &mut Ctx) -> Result<(), Failure> {
     }
     if strict_fails_late {
         ctx.class("strict-fails-behind-first-header");
+    }
+    Ok(())
+}
+
+/// LaxIpSlice / LaxIpv4Slice / LaxIpv6Slice against the lax reference (IP layer only)
+fn lax_ip_front_ends(b: &[u8], r: &RefOut, ctx: &mut Ctx) -> Result<(), Failure> {
+    use crate::refdec::LK;
+    let input = || input_json(Start::Ip, b);
+    let p = parts(r);
+    let ip_fault = r.faults.first().filter(|f| !matches!(f.at, "udp" | "tcp" | "icmpv4" | "icmpv6"));
+    let final_pay = p.ip_exts.last().map(|l| l.pay.clone()).or(p.net.map(|l| l.pay.clone()));
+    let mut c = Cmp::new(b);
+    let mut entry = "LaxIpSlice::from_slice";
+    ctx.eval(3);
+    // generic helper for the stop error
+    let stop_check = |c: &mut Cmp, stop: Option<ObsErr>| match (stop, ip_fault) {
+        (None, None) => {}
+        (Some(o), Some(_)) => {
+            if !class_matches(&o, &r.faults) {
+                c.fail("stop_err", "class", format!("stop error {:?} is not among the faults present: {:?}", o, r.faults));
+            }
+        }
+        (Some(o), None) => c.fail("stop_err", "spurious", format!("stop error {:?} but the reference finds no fault in the IP layer", o)),
+        (None, Some(f)) => c.fail("stop_err", "missing", format!("no stop error but the bytes contain {:?}", f)),
+    };
+    let v6stop = |s: &Option<(err::ipv6_exts::HeaderSliceError, err::Layer)>| {
+        s.as_ref().map(|(e, _)| match e {
+            err::ipv6_exts::HeaderSliceError::Len(l) => obs_len(l),
+            err::ipv6_exts::HeaderSliceError::Content(x) => obs_v6ext(x),
+        })
+    };
+    match (LaxIpSlice::from_slice(b), p.net) {
+        (Ok((LaxIpSlice::Ipv4(s), st)), Some(rl)) if rl.kind == LK::Ipv4 => {
+            c.ipv4_header(&s.header(), rl);
+            c.v4_exts(&s.extensions(), &p.ip_exts);
+            c.lax_ip_pay("ipv4", "payload", s.payload(), final_pay.as_ref().unwrap());
+            stop_check(&mut c, v6stop(&st));
+        }
+        (Ok((LaxIpSlice::Ipv6(s), st)), Some(rl)) if rl.kind == LK::Ipv6 => {
+            c.ipv6_header(&s.header(), rl);
+            c.v6_exts(s.extensions(), rl, &p.ip_exts);
+            c.lax_ip_pay("ipv6", "payload", s.payload(), final_pay.as_ref().unwrap());
+            stop_check(&mut c, v6stop(&st));
+        }
+        (Err(_), None) => {}
+        (Ok(_), _) => c.fail("net", "kind", "LaxIpSlice decoded an IP header the reference does not see (or of the other version)".into()),
+        (Err(e), Some(_)) => c.fail("net", "verdict", format!("Err({:?}) although the base header is decodable", e)),
+    }
+    if c.fails.is_empty() {
+        if let Some(rl) = p.net {
+            if rl.kind == LK::Ipv4 {
+                entry = "LaxIpv4Slice::from_slice";
+                match LaxIpv4Slice::from_slice(b) {
+                    Ok((s, st)) => {
+                        c.ipv4_header(&s.header(), rl);
+                        c.v4_exts(&s.extensions(), &p.ip_exts);
+                        c.lax_ip_pay("ipv4", "payload", s.payload(), final_pay.as_ref().unwrap());
+                        stop_check(
+                            &mut c,
+                            st.as_ref().map(|e| match e {
+                                err::ip_auth::HeaderSliceError::Len(l) => obs_len(l),
+                                err::ip_auth::HeaderSliceError::Content(x) => obs_auth(x),
+                            }),
+                        );
+                    }
+                    Err(e) => c.fail("net", "verdict", format!("Err({:?}) although the base header is decodable", e)),
+                }
+            } else if rl.kind == LK::Ipv6 {
+                entry = "LaxIpv6Slice::from_slice";
+                match LaxIpv6Slice::from_slice(b) {
+                    Ok((s, st)) => {
+                        c.ipv6_header(&s.header(), rl);
+                        c.v6_exts(s.extensions(), rl, &p.ip_exts);
+                        c.lax_ip_pay("ipv6", "payload", s.payload(), final_pay.as_ref().unwrap());
+                        stop_check(&mut c, v6stop(&st));
+                    }
+                    Err(e) => c.fail("net", "verdict", format!("Err({:?}) although the base header is decodable", e)),
+                }
+            }
+        }
+    }
+    ctx.eval(c.checks as u64);
+    if let Some(m) = c.fails.first() {
+        let detail = c.fails.iter().map(|m| format!("{}.{}: {}", m.layer, m.field, m.detail)).collect::<Vec<_>>().join("; ");
+        let fk = r.faults.first().map(fault_kind).unwrap_or_else(|| "ok".into());
+        return ctx.fail(Failure::new(format!("C05|{}|{}|{}|{}", entry, m.layer, strip_idx(&m.field), fk), format!("lax {}.{} as prescribed", m.layer, m.field), format!("lax reference layers {} faults {:?}: {}", r.layer_names(), r.faults.first(), detail), input()));
     }
     Ok(())
 }
@@ -297,11 +389,18 @@ impl Property for C05 {
     fn id(&self) -> &'static str {
         "C05"
     }
+    fn post(&self, tier: Tier, seed: u64, root: &std::path::Path) -> Result<Value, Failure> {
+        if tier == Tier::Thorough {
+            crate::fuzzapi::run_fuzz_campaign("C05", root, seed, 400_000, 8)
+        } else {
+            Ok(Value::Null)
+        }
+    }
     fn tape_len(&self) -> usize {
         640
     }
     fn cases(&self, tier: Tier) -> u64 {
-        tier.pick(400_000, 8_000_000)
+        tier.pick(3_000_000, 60_000_000)
     }
     fn run_tape(&self, tape: &[u8], ctx: &mut Ctx) -> Result<(), Failure> {
         let mut t = Tape::new(tape);
